@@ -894,6 +894,8 @@ theorem keeps_setMargins {s0 s : Scr} (hk : Keeps P s0 s) (t b : Int) :
   simp only
   split
   · exact hk
+  split
+  · exact hk
   · have h2 := clampNat_le b (s.h - 1)
     have := hk.1.hpos
     exact keeps_scalars hk rfl rfl rfl hk.1.cxlt hk.1.cylt hk.1.sxlt hk.1.sylt
